@@ -791,6 +791,35 @@ PV_T = dict(rates=[0, 0.05, 0.01, 0.5, 1, -0.5, 0.001, 0.1, 2, -0.25, -0.9, 1e-6
             futs=[0, 1000, -1000, 0.5])
 
 
+class PowerWhole(Sub):
+    name = 'c16.power_whole'
+    rule = ('POWER of two whole numbers is the whole number a^b on both sides of the largest double (2^1023, 2^1024, 10^308, 10^309, '
+            '(-2)^1025, 3^700, 7^400 ...), the same value the ^ operator gives between the two literals, through variables and literals; non-trivial = all')
+    min_cases = 20
+    min_nontrivial = 20
+    PAIRS = [(2, 10), (2, 1023), (2, 1024), (2, 1025), (10, 308), (10, 309), (-2, 1023), (-2, 1024), (-2, 1025), (3, 646), (3, 647), (3, 700), (7, 400),
+             (-10, 309), (10, 400), (2, 4000), (1, 10 ** 6), (-1, 10 ** 6 + 1), (0, 5000), (12, 300)]
+
+    def cases(self, tier, unit):
+        for i in range(len(self.PAIRS)):
+            yield [i]
+
+    def check(self, env, case):
+        a, b = self.PAIRS[case[0]]
+        env.nt()
+        want = a ** b
+        # (the ^ operator stands between two number literals only)
+        for f, vars_ in (('POWER(xa,xb)', {'xa': a, 'xb': b}), ('POWER(%s,%d)' % (numlit(a), b), {})) + ((('%d^%d' % (a, b), {}),) if a >= 0 else ()):
+            o = env.evo(f, vars_)
+            v = o[1] if o[0] == 'v' else None
+            if isinstance(v, dict) and '$int' in v:
+                v = int(v['$int'], 0)
+            if not (isinstance(v, (int, float)) and not isinstance(v, bool) and v == want):
+                return fail('%s%s = %s, expected the whole number %d^%d (%d bits)' % (
+                    f, ' with xa=%d, xb=%d' % (a, b) if vars_ else '', short(o), a, b, want.bit_length()), 'a^b', short(o))
+        return None
+
+
 class Pv(Sub):
     name = 'c16.pv'
     rule = ('PV on the full product rates x periods x payments x (future omitted | futures x type in {omitted,'
@@ -817,8 +846,14 @@ class Pv(Sub):
             for n in (2, 12, 360):
                 for pay, fv, t in ((-100, None, None), (-100, 1000, 1), (0, 1, None)):
                     yield ['v', r, n, pay, fv, t]
-        for r, n, pay, fv, t in ((1, 0.0001, -100, None, None), (1, 1e-10, -100, None, None), (-0.5, 0.001, -100, 0, 1), (0.05, 0.5, -100, None, None)):
+        for r, n, pay, fv, t in ((1, 0.0001, -100, None, None), (1, 1e-10, -100, None, None), (-0.5, 0.001, -100, 0, 1), (0.05, 0.5, -100, None, None),
+                                 (0.1, 1e-70, 1, None, None), (0.1, 1e-50, 1, None, None), (0.05 / 12, 1e-49, 1000, 0, 1), (0.1, -1e-200, -5, None, None),
+                                 (2.0 ** -30, 1e-60, 7, 0, 1)):
             yield ['v', r, n, pay, fv, t]
+        # at rate 0 the equation is linear: the solution is returned wherever it is a number, also when payment * periods alone is not
+        for n, pay, fv in ((1.9, 1e308, -1e308), (2, 1.5e308, -1.7e308), (0.5, -1.7e308, 1e308), (3, 1e308, -1.7e308)):
+            yield ['v', 0, n, pay, fv, None]
+            yield ['v', 0, n, pay, fv, 1]
         # growth factors that are exact doubles (1 + r a small dyadic number): where the solution -fv/(1+r)^n is itself a double it is
         # hit to a few units in the last place - a formula that goes through exp(n*log(1+r)) multiplies its rounding by n*ln(1+r)
         for r in (1, -0.5, 3, 0.25, -0.75):
@@ -895,7 +930,7 @@ class Pv(Sub):
         fv = fv or 0
         t = t or 0
         # (1+r)^n (or the solution) beyond the double range: not demanded
-        growth = Fraction(1 + Fraction(r)) ** n if isinstance(n, int) else Fraction(math.pow(1 + r, n))
+        growth = Fraction(1) if r == 0 else Fraction(1 + Fraction(r)) ** n if isinstance(n, int) else Fraction(math.pow(1 + r, n))
         if not (1 / BIG <= growth <= BIG):
             env.note('not-demanded:(1+r)^n outside 1e-300..1e300')
             if not_a_number(out):
@@ -912,10 +947,11 @@ class Pv(Sub):
                 return None
         if pv is None or isinstance(pv, float) and (math.isnan(pv) or math.isinf(pv)):
             return fail('%s: expected a finite number, got %s' % (what, short(out)), 'a number', out)
-        if isinstance(n, int):
+        if isinstance(n, int) or r == 0:
+            # (at r = 0 the equation is linear: exact whatever the number of periods)
             R, P, F, T, V = Fraction(r), Fraction(pay), Fraction(fv), Fraction(t), Fraction(pv)
-            g = (1 + R) ** n
-            annuity = P * n if R == 0 else P * (1 + R * T) * (g - 1) / R
+            g = (1 + R) ** n if R != 0 else Fraction(1)
+            annuity = P * Fraction(n) if R == 0 else P * (1 + R * T) * (g - 1) / R
         else:
             R, P, F, T, V = float(r), float(pay), float(fv), float(t), float(pv)
             g = math.pow(1 + R, n)
@@ -927,9 +963,9 @@ class Pv(Sub):
         # (a difference of two numbers close to 1 - (1+r)^n - 1 for a small r - is the classic way to lose that)
         mild = abs(n * math.log1p(float(r))) <= 50 if r > -1 else False
         if isinstance(residual, Fraction):
-            tol = scale * Fraction(1, 10 ** (12 if mild else 9)) + Fraction(1, 10 ** 15)
+            tol = scale * Fraction(1, 10 ** (12 if mild else 9)) + Fraction(1, 10 ** 300)
         else:
-            tol = scale * (1e-12 if mild else 1e-9) + 1e-15
+            tol = scale * (1e-12 if mild else 1e-9) + 1e-300
         if abs(residual) <= tol:
             return None
         expected = -(annuity + F) / g
@@ -1172,4 +1208,4 @@ class ElementarySiblings(Siblings):
     ]
 
 
-SUBS = [Unary(), Extremes(), Coercion(), Binary(), Atan2(), Identities(), Pv(), Rand(), RandBetween(), ElementarySiblings()]
+SUBS = [PowerWhole(), Unary(), Extremes(), Coercion(), Binary(), Atan2(), Identities(), Pv(), Rand(), RandBetween(), ElementarySiblings()]
